@@ -255,7 +255,8 @@ def _capacity_site(s: Summary, e: Event, srcs: Term, dests: Term, mc: Term, many
                   "a destination can receive more than max_connects connections" if own else ""))
     else:
         okc = any(x.guards == e.guards and x.term[2] == ("op", "+", call(("attr", cnt_tab, "get"), dest, T.const(0)), T.const(1)) for x in counts) \
-            or any(x.guards == e.guards and x.term[2][0] == "op" and x.term[2][1] == "+" and x.term[2][3] == T.const(1) for x in counts)
+            or any(x.guards == e.guards and x.term[2][0] == "op" and x.term[2][1] == "+" and x.term[2][3] == T.const(1)
+                   and not (x.term[2][2][0] == "call" and x.term[2][2][1][0] == "attr" and x.term[2][2][1][2] == "get" and len(x.term[2][2][2]) == 2 and x.term[2][2][2][1] != T.const(0)) for x in counts)
         if not okc:
             pr.append("the per-destination count is not incremented by one on every connection (unconditionally)")
         rem = [x for x in s.of_kind("call") if x.term[1] == ("attr", dests, "remove") and x.term[2] == (dest,)]
